@@ -178,6 +178,7 @@ func mkSelDoc() *selDoc {
 		"m":    d.m,
 		"k.k":  Map{"c": d.y},
 		"num":  "12.5",
+		"o":    Map{"p": Map{"q": d.x, "r": Map{"z": d.s}}, "w": d.y},
 	}
 	return d
 }
@@ -265,6 +266,10 @@ var selCases = []selCase{
 		return []any{d.y, d.x}, false
 	}},
 	{"mix=>a", func(d *selDoc) (any, bool) { return Map{"b": d.x, "c": d.s, "n": nil}, false }},
+	{"mix=>o", func(d *selDoc) (any, bool) { return Map{"p_q": d.x, "p_r_z": d.s, "w": d.y}, false }},
+	{"mix=>o.p", func(d *selDoc) (any, bool) { return Map{"q": d.x, "r_z": d.s}, false }},
+	{"mix=>a.b", func(d *selDoc) (any, bool) { return nil, true }},
+	{"distinct=>a", func(d *selDoc) (any, bool) { return nil, true }},
 }
 
 // H_C09_reader: ExecReader on documented selector forms over a document
